@@ -23,7 +23,7 @@ def replay_file(prop, path):
     try:
         slim = {k: v for k, v in trace.items() if not k.startswith("_") and k not in ("build_exc", "build_tb", "family")}
         rej, n = tlc.validate(MODULE_OF_FAMILY[family], [slim], scratch, shards=1,
-                               constants={"AndLeftTrueNeedsFalseSet": True, "PreferWildcardB3": True, "B3Judge": "obs"} if family == "query" else None)
+                               constants=dict(CODE, B3Judge="obs") if family == "query" else None)
     finally:
         shutil.rmtree(scratch, ignore_errors=True)
     print(json.dumps(trace.get("evs", trace))[:2000])
